@@ -17,7 +17,7 @@ RULE = ('queries {finite flat facts; a fact whose second argument is a 60-elemen
         'rule with a deep failing branch between answers; registered Python predicates whose clean-up (finally) code needs 0, 3, 12 or 30 nested calls, queried directly and through call/1; predicates answered from two sources (dynamic facts followed by compiled clauses, dynamic facts followed by a Python predicate); a Python predicate that yields True; a dynamic fact with a variable 12 levels deep (after every call two uses of it at once must still be independent)} x EVERY recursion_limit from 8 to 400 (each value moves the '
         'point at which the limit strikes; quick: every value up to 89, then every 14th) x projection functions {identity, observe the variables, '
         'raise ValueError at the k-th answer for k=1..5, raise RuntimeError at the 2nd, raise StopIteration at the 2nd, raise KeyboardInterrupt at the 1st / SystemExit at the 2nd / an own BaseException subclass at the 2nd, run a bounded sub-query on the same engine for every answer (nested evaluate_bounded, inner limit 150 / 500)}, '
-        'called from a shallow stack, in every 5th case while another query of the same engine is suspended at its first answer (it must be undisturbed afterwards); plus bounds ABOVE the interpreter\'s own limit (1200, 3000, 10000) for nat/1, ev/1, a compiled recursion over a dynamic base fact and len/2 of a 700-element list, with the identity projection and projections raising at answer 1, 200, 450, 900, 1400 (each call in a forked child: a dying interpreter is a violation); plus, for 8 queries at every limit 8..63, the same call in a quiet process and in one with every logger at DEBUG, a stream handler attached and warnings turned into errors, which must return the same. Checked: no RecursionError escapes; the result is a prefix of RefProlog\'s answer '
+        'called from a shallow stack, in every 5th case while another query of the same engine is suspended at its first answer (it must be undisturbed afterwards); in three of every seven cases with the interpreter limit changed (to 1300, 1700 or 5000) AFTER the engine was created - restored means restored to the limit in force when the call was made; plus bounds ABOVE the interpreter\'s own limit (1200, 3000, 10000) for nat/1, ev/1, a compiled recursion over a dynamic base fact and len/2 of a 700-element list, with the identity projection and projections raising at answer 1, 200, 450, 900, 1400 (each call in a forked child: a dying interpreter is a violation); plus, for 8 queries at every limit 8..63, the same call in a quiet process and in one with every logger at DEBUG, a stream handler attached and warnings turned into errors, which must return the same. Checked: no RecursionError escapes; the result is a prefix of RefProlog\'s answer '
         'sequence (projected), and the whole sequence when the limit exceeds the measured stack depth of an unbounded '
         'run by a margin; afterwards sys.getrecursionlimit() is the old value and every live engine variable (weak set '
         'hook) is unbound - also when the projection raised and the caller still holds the query. evaluations = '
@@ -235,8 +235,13 @@ def _stack():
     return out
 
 
-def one_call(pytext, qname, goal, limit, pname, exp, need_depth, bystander=False):
+AMBIENT = {3: 1700, 5: 5000, 6: 1300}     # idx % 7 -> the limit in force when the call is made
+
+
+def one_call(pytext, qname, goal, limit, pname, exp, need_depth, bystander=False, ambient=None):
     """-> None | (sig, detail) ; plus info tuple
+    ambient: the application changes the interpreter's recursion limit AFTER the engine was created and
+    loaded; "the limit is restored" means restored to what it was when the call was made
     bystander: another query of the same engine (col(C), over its own variable) is suspended at its
     first answer while evaluate_bounded runs; it must be exactly where it was afterwards"""
     yp = impl.YP()
@@ -248,7 +253,13 @@ def one_call(pytext, qname, goal, limit, pname, exp, need_depth, bystander=False
         bq = yp.query('col', [bv])
         next(bq)
         by = (bv, bq)
+    if ambient:
+        sys.setrecursionlimit(ambient)
     r = _one_call(yp, qname, goal, limit, pname, exp, need_depth)
+    if ambient:
+        sys.setrecursionlimit(1000)
+        if r[0] is not None:
+            r = ((r[0][0], 'the recursion limit was changed to %d after the engine was created\n%s' % (ambient, r[0][1])), r[1])
     if r[0] is None and qname == 'variable-fact':
         # whatever the bounded call went through, the fact is what it was: two uses at once, bound differently
         n2 = len(list(yp.query('vboth', [])))
@@ -378,11 +389,11 @@ def _shard(spec, acc):
                     continue
                 acc.n['evaluations'] += 1
                 acc.n['validated'] += 1
-                bad, info = one_call(pytext, qn, goal, limit, pn, exp[qn], depth[qn], bystander=(idx % 5 == 0))
+                bad, info = one_call(pytext, qn, goal, limit, pn, exp[qn], depth[qn], bystander=(idx % 5 == 0), ambient=AMBIENT.get(idx % 7))
                 if sys.getrecursionlimit() != 1000:
                     sys.setrecursionlimit(1000)
                 if bad:
-                    acc.violation(bad[0], (limit, qn, pn), {'query': qn, 'limit': limit, 'projection': pn},
+                    acc.violation(bad[0], (limit, qn, pn), {'query': qn, 'limit': limit, 'projection': pn, 'bystander': idx % 5 == 0, 'ambient': AMBIENT.get(idx % 7)},
                                   'query %s, recursion_limit=%d, projection %s\n%s' % (show_term(goal), limit, pn, bad[1]),
                                   key='%s|%d|%s' % (qn, limit, pn))
                     continue
@@ -648,7 +659,7 @@ def replay(case):
         yp0.load_script_from_string(pytext, fn=impl.SCRIPT_FN)
         register_python(yp0)
         d = measure_depth(yp0, goal) if exp[case['query']]['complete'] else None
-        bad, info = one_call(pytext, case['query'], goal, case['limit'], case['projection'], exp[case['query']], d)
+        bad, info = one_call(pytext, case['query'], goal, case['limit'], case['projection'], exp[case['query']], d, bystander=case.get('bystander', False), ambient=case.get('ambient'))
         sys.setrecursionlimit(1000)
         if bad:
             out.append(bad)
